@@ -36,6 +36,20 @@ RULE = ("scalar and 3-vector fields (affine, uniform, random integer data; renam
         "FieldRotator._rotation compared (1e-12) with the model's "
         "own parameterisations: from_mrp on dyadic vectors, align_vector on exact equal-length pairs, from_euler / from_rotvec with quarter-turn "
         "angles, the quarter-turn matrices of C12's planes, argsort; unknown method names are part of the modelled histories. "
+        "Rotations with rational cosine and sine that are NOT quarter turns (second round): products of 1-3 plane rotations by Pythagorean "
+        "angles (3-4-5, 5-12-13, 8-15-17, 7-24-25, 20-21-29, ... either sense) about different coordinate axes enter the histories (rot:pyth, "
+        "~20 % of the rotations) and are handed to the real code as from_euler with the float angles atan2(sin, cos) (via:eulercs) or in any of "
+        "the other forms; FieldRotator._rotation is compared (1e-12) with the model's eulerCS (extrinsic and intrinsic sequences of such "
+        "angles), ofAxisAngle (from_rotvec(theta*u) with a rational unit axis u such as (1,2,2)/3, (2,3,6)/7 and a Pythagorean angle) and Rcs "
+        "(from_matrix), and the harness' own quaternion product with eulerCS exactly. "
+        "Independence of units as a statement about the real code (kind 'homog'): the same field in other units - coordinates s*x + d, values "
+        "t*v, all exact in binary64, s = 2^k / 10^k / small odd * 2^k from 1e-9 to 1e6, t of either sign - goes through the same history: "
+        "same refusals, same cell counts (automatic ones included, up to a rounding tie), corners s*x + d, values t*v (relative 1e-9), and the "
+        "model's own change of units affFld (the object of the theorems rot_homogeneous / history_homogeneous) is compared with the real "
+        "code run on the rescaled field; in the exact regime the model history of affFld(f) must coincide with the model history of the field "
+        "that was built in the other units. "
+        "Automatic cell counts above 2000 cells (strongly elongated cells turned out of their axes: the exact model would need minutes) are "
+        "replaced by an explicit n in the modelled streams (n:tamed, about 8 % of the automatic calls); the long-mesh stream keeps them. "
         "non-trivial = a successful rotation that is not a lattice rotation with at least one deep-inside and one outside target cell, "
         "or a refusal")
 TRUSTED = ["harness/c18.py, harness/fieldio.py + driver JSON glue",
@@ -43,7 +57,7 @@ TRUSTED = ["harness/c18.py, harness/fieldio.py + driver JSON glue",
            "RegularGridInterpolator (linear, fill_value=0) modelled by contract: exact rational matrix product/transposition and "
            "multilinear interpolation on the padded node grid",
            "float conversions of the exact rational rotation to rotation vector / Euler angles / MRP / alignment vectors done in the harness "
-           "(math.atan2, scipy as_euler)"]
+           "(math.atan2, scipy as_euler); for the Pythagorean angles: theta = math.atan2(sin, cos) of the exact rational cosine and sine"]
 ASSUMPTIONS = ["tolerance regime: scipy computes rotations in binary64, the model exactly; values agree to 1e-9 relative to the largest "
                "magnitude involved, geometry to 1e-9 of the region extent (+ 2^-48 of the largest coordinate for regions far from the origin); "
                "the inside/outside decision of a centre within 1e-6 cell of the padded box faces is not compared; for a region whose "
@@ -51,20 +65,30 @@ ASSUMPTIONS = ["tolerance regime: scipy computes rotations in binary64, the mode
                "real code: the value tolerance grows by 8x and the skipped band by 4x that amount (C <= 1e6 cells: <= 2e-8 / 1e-8)"]
 UNPROVED = ["the automatic cell count is the rounded real cube-root expression: the model decides it exactly by integer cube comparisons "
             "(theorems roundCbrt_spec, rot_metadata_auto: every automatic count is >= 1; rot_lattice_copies_cells: for lattice rotations it is the "
-            "permuted count) but that np.round/** compute the same is observed, not proved",
-            "rot_quarter_is_rot90 / rot_quarter_matches_rotate90 / rot_lattice_copies_cells are proved for every plane, every integer k and all signed "
-            "permutation matrices (one rotate call); that a SEQUENCE of Field.rotate90 calls in different planes equals the single lattice rotation is "
-            "proved on the FieldRotator side (quarter_matrix_laws, history_eq_single, lattice_history_copies_cells: any history of quarter turns copies "
-            "cells of the original) and compared on the real code (kind 'quarter'), there is no object-level "
-            "theorem chaining several T.rotate90F calls",
-            "from_rotvec / from_euler are modelled for quarter-turn angles only (Raxis, eulerQ), align_vector for equal-length vectors only (ofAlign): "
-            "for other inputs the matrix entries are not rational; those rotations enter model and theorems as the matrix scipy is asked to build",
+            "permuted count; auto_counts_keep_cell_volume: the un-rounded counts keep the cell volume exactly and the aspect ratio of the rotated "
+            "cell's bounding box) but that np.round/** compute the same is observed, not proved",
+            "a SEQUENCE of Field.rotate90 calls in different planes equals the single lattice rotation: now an object-level theorem "
+            "(rotate90_sequence_is_one_rotation, by induction over any list of T.rotate90F calls: corners, counts, every cell value, and the history of "
+            "single rotate calls) for calls about the centre in the copying form on fields with a complete one-to-one mapping; validity, axis names and "
+            "units of the two results are NOT the same (the rotator starts a fresh all-valid field with default names: rot_metadata), and sequences with "
+            "an explicit reference point or in the in-place form are covered only through C12's own theorems (rotate_consistent, field_compose)",
+            "from_rotvec / from_euler are now modelled for EVERY angle with rational cosine and sine (RaxisCS, eulerCS, ofAxisAngle with a rational "
+            "unit axis: theorems plane_rotation_laws, pythagorean_angles, euler_rational_sequences, axis_angle_spec) - quarter turns are the special "
+            "case; angles with irrational cosine or sine (e.g. pi/3 about a coordinate axis gives sqrt(3)/2) and rotation-vector axes of irrational "
+            "length are outside rational arithmetic: such rotations enter model and theorems as the (rational) matrix they are compared with, and "
+            "align_vector is modelled for equal-length vectors only (ofAlign; otherwise |i||f| needs a square root)",
             "that scipy's float Rotation/RegularGridInterpolator implement exact matrix algebra / multilinear interpolation up to rounding is the "
             "contract validated by the correspondence run, not proved",
-            "independence of the unit of length and of the value magnitude holds in the model by construction (the padding offset is 1e-9 of a "
-            "CELL, every formula is homogeneous) but is not stated as a theorem; on the real code it is sampled (length scales 1e-12..1e9, "
-            "values 1e-12..1e12, offsets up to 1e6 cells), and meshes with more than 6 cells along an axis are checked against the numpy "
-            "statement of the property only, not against the model"]
+            "independence of the unit of length, of the origin and of the value magnitude is now a theorem about the model for every matrix, every n and "
+            "every history (rot_homogeneous, rot_homogeneous_cells, history_homogeneous: s > 0, any shift d, any factor t, refusals included; "
+            "rot_superposition: additivity in the data); that binary64 rounding does not break it on the real code is sampled (kind 'homog' and the "
+            "lscale/vscale/offset tags of every stream), and meshes with more than 6 cells along an axis or automatic counts above 2000 cells are "
+            "checked against the numpy statement of the property only, not against the model",
+            "rot_value_complete describes EVERY target cell of the model (zero outside the region enlarged by 1e-9 cell; inside, the eight-cell formula at "
+            "the position clamped to the box of the first/last cell centres); on the real code the inside/outside decision within 1e-6 cell of a face "
+            "is not compared (boundary comparator), so a centre that lies in the 1e-9-cell sliver outside a face may take either value there",
+            "rot_scalar_range (no new extrema) is proved for scalar fields; for 3-vector fields only componentwise before the rotation (origAt_range) - "
+            "the bound on the Euclidean norm of the stored vector (convexity of the norm) is not proved"]
 BUDGET = {"quick": 85, "thorough": 900}
 
 EULER_SEQS = ["xyz", "zyx", "zxz", "xyx", "yzy", "xzy", "XYZ", "ZYX", "ZXZ", "YXY", "XZX", "YZX"]
@@ -88,6 +112,48 @@ LATTICE_QUATS = [q for q in itertools.product([-1, 0, 1], repeat=4)
                  if sum(c * c for c in q) in (1, 2) or all(c != 0 for c in q)]
 
 
+def qmul(a, b):
+    """Hamilton product a*b of quaternions in scipy order [x, y, z, w] (the rotation b is applied first)"""
+    ax, ay, az, aw = a
+    bx, by, bz, bw = b
+    return [aw * bx + ax * bw + ay * bz - az * by,
+            aw * by - ax * bz + ay * bw + az * bx,
+            aw * bz + ax * by - ay * bx + az * bw,
+            aw * bw - ax * bx - ay * by - az * bz]
+
+
+# half-angle pairs (m, n): the rotation by the angle with cos = (m^2-n^2)/(m^2+n^2), sin = 2mn/(m^2+n^2)
+# (2,1): 3-4-5, (3,2): 5-12-13, (4,1): 15-8-17, (4,3): 7-24-25, (5,2): 21-20-29, (3,1): 4-3-5, (1,2): obtuse 3-4-5 ...
+PYTH = [(2, 1), (3, 2), (4, 1), (4, 3), (5, 2), (3, 1), (1, 2), (2, 3), (1, 3), (2, -1), (3, -2), (1, -2), (5, -2)]
+# rational unit vectors
+UNIT_AXES = [(1, 2, 2, 3), (2, 3, 6, 7), (1, 4, 8, 9), (4, 4, 7, 9), (2, 6, 9, 11), (3, 4, 0, 5), (0, 5, 12, 13), (6, 6, 7, 11)]
+
+
+def pyth_cs(m, n):
+    return Fraction(m * m - n * n, m * m + n * n), Fraction(2 * m * n, m * m + n * n)
+
+
+def gen_pyth_seq(rng, kmin=1, kmax=3):
+    """1-3 rotations about coordinate axes by Pythagorean angles, consecutive axes different"""
+    k = rng.randint(kmin, kmax)
+    axes = [rng.randrange(3)]
+    while len(axes) < k:
+        a = rng.randrange(3)
+        if a != axes[-1]:
+            axes.append(a)
+    return [(a,) + rng.choice(PYTH) for a in axes]
+
+
+def pyth_quat(seq):
+    """quaternion [x, y, z, w] of the EXTRINSIC sequence: first entry applied first, later ones on the left"""
+    q = [0, 0, 0, 1]
+    for a, m, n in seq:
+        h = [0, 0, 0, m]
+        h[a] = n
+        q = qmul(h, q)
+    return q
+
+
 def is_lattice(M):
     return all(v in (0, 1, -1) for r in M for v in r)
 
@@ -96,7 +162,7 @@ def mfloat(M):
     return np.array([[float(v) for v in r] for r in M])
 
 
-def rot_call(quat, method, rng):
+def rot_call(quat, method, rng, pyth=None):
     """(method name, args, kwargs) describing the rational rotation `quat` = [x, y, z, w]."""
     x, y, z, w = quat
     v = np.array([x, y, z], dtype=float)
@@ -111,10 +177,17 @@ def rot_call(quat, method, rng):
         return "from_mrp", [(v / (nq + w)).tolist()], {}
     if method == "matrix":
         return "from_matrix", [M.tolist()], {}
-    if method.startswith("euler"):
+    if method.startswith("euler:"):
         seq = method.split(":")[1]
         ang = SciRot.from_matrix(M).as_euler(seq)
         return "from_euler", [seq, ang.tolist()], {}
+    if method == "eulercs":
+        # the rotation as scipy builds it from Euler angles that are NOT quarter turns: extrinsic sequence of rotations
+        # about coordinate axes by Pythagorean angles (rational cosine and sine)
+        seq = pyth
+        if seq is not None:
+            return "from_euler", ["".join("xyz"[a] for a, _, _ in seq),
+                                  [math.atan2(2 * m * n, m * m - n * n) for _, m, n in seq]], {}
     if method == "align" and nv and w:
         e = [1.0, 0, 0] if (y or z) else [0, 1.0, 0]
         u = np.cross(v, e)
@@ -125,7 +198,14 @@ def rot_call(quat, method, rng):
 
 
 def gen_rot(rng):
-    if rng.random() < 0.25:
+    r = rng.random()
+    if r < 0.2:
+        # products of plane rotations by Pythagorean angles in different planes (3-4-5 about z, then 5-12-13 about x, ...)
+        seq = gen_pyth_seq(rng, 1, 2 if rng.random() < 0.8 else 3)
+        quat = pyth_quat(seq)
+        method = rng.choice(["eulercs", "eulercs", "matrix", "quat", "rotvec", "mrp", "euler:" + rng.choice(EULER_SEQS)])
+        return dict(quat=quat, method=method, sub=rng.getrandbits(30), pyth=[list(t) for t in seq])
+    if r < 0.4:
         quat = list(rng.choice(LATTICE_QUATS))
     else:
         while True:
@@ -395,9 +475,34 @@ def property_oracle(f, info, spec, g, Macc, n_given, fail, tags, label):
     return dict(deep=int(inside1.sum()), outside=int(outside.sum()), near=out_by, band=band, vtol=vtol, gtol=gtol, vscale=vscale)
 
 
+def tame_auto_n(spec, ops, pre, rng, limit=2000):
+    """the exact model resamples every target cell in rational arithmetic: an automatic cell count of tens of thousands
+    of cells (strongly elongated cells turned out of their axes) would take minutes. Where `_calculate_new_n` would
+    give more than `limit` cells the call gets an explicit n instead (tag n:tamed; about one automatic call in ten)."""
+    e = np.abs(np.asarray(spec["p2"], float) - np.asarray(spec["p1"], float))
+    if pre and spec["kind"] != "affine":
+        e = e * np.asarray(pre, float)
+    c = e / np.asarray(spec["n"], float)
+    acc = EYE
+    for o in ops:
+        if o["t"] == "clear":
+            acc = EYE
+            continue
+        if o.get("bad") == "method":
+            continue
+        acc = mmul(quat_matrix(*o["rot"]["quat"]), acc)
+        if o.get("n") is None and not o.get("bad"):
+            A = np.abs(mfloat(acc))
+            E, l = A @ e, A @ c
+            x = E / (l * (float(np.prod(c)) / float(np.prod(l))) ** (1 / 3))
+            if float(np.prod(np.round(x))) > limit:
+                o["n"] = [rng.randint(1, 6) for _ in range(3)]
+                o["tamed"] = True
+
+
 # ------------------------------------------------------------------ cases
 def cases(rng, tier):
-    nh = 260 if tier == "quick" else 2400
+    nh = 280 if tier == "quick" else 2400
     for k in range(nh):
         big = rng.random() < 0.35
         spec = gen_field_spec(rng, nmin=3 if big else rng.choice([1, 2, 3]), nmax=6 if big else 5, max_cells=120 if big else 60)
@@ -423,6 +528,7 @@ def cases(rng, tier):
         # a quarter of the fields: the region OBJECT of the field's mesh is stretched in place before the rotator is made
         # (`field.mesh.region.scale(...)`: cell sizes change without any Mesh method being called)
         pre = rng.choice([[2.0, 1.0, 1.5], [0.5, 2.0, 1.0], [1.0, 1.0, 4.0], [3.0, 0.5, 0.25]]) if rng.random() < 0.25 else None
+        tame_auto_n(spec, ops, pre, rng)
         yield dict(kind="hist", field=spec, ops=ops, pre=pre)
     # long meshes (hundreds to thousands of cells along one axis), explicit target resolution of the same order; checked
     # against the property's statement on the real code alone (the exact model is kept for the small meshes above)
@@ -447,9 +553,31 @@ def cases(rng, tier):
     # the rational parameterisations the model implements itself: from_mrp with dyadic parameters, from_euler with
     # quarter-turn angles (intrinsic and extrinsic, 1-3 axes), from_rotvec about a coordinate axis, and the
     # quarter-turn matrices of C12's planes given as matrix
-    for k in range(60 if tier == "quick" else 500):
-        which = rng.choice(["mrp", "mrp", "euler", "euler", "rotvec", "rq", "align", "align", "argsort"])
+    for k in range(110 if tier == "quick" else 900):
+        which = rng.choice(["mrp", "mrp", "euler", "euler", "rotvec", "rq", "align", "align", "argsort",
+                            "eulercs", "eulercs", "eulercs", "axisangle", "axisangle", "rcs"])
         c = dict(kind="param", which=which)
+        if which == "eulercs":
+            # from_euler with angles that are NOT quarter turns: rational cosine and sine (Pythagorean angles)
+            c.update(seq=[list(t) for t in gen_pyth_seq(rng)], intrinsic=rng.random() < 0.5)
+            yield c
+            continue
+        if which == "axisangle":
+            # from_rotvec(theta * u): rational unit axis (signed, permuted), Pythagorean angle
+            ax = list(rng.choice(UNIT_AXES))
+            u = ax[:3]
+            rng.shuffle(u)
+            u = [x * rng.choice([-1, 1]) for x in u]
+            m, n = rng.choice(PYTH)
+            c.update(u=u, den=ax[3], m=m, n=n)
+            yield c
+            continue
+        if which == "rcs":
+            pp, qq = rng.sample(range(3), 2)
+            m, n = rng.choice(PYTH)
+            c.update(p=pp, q=qq, m=m, n=n)
+            yield c
+            continue
         if which == "argsort":
             c["l"] = rng.sample(range(3), 3) if rng.random() < 0.7 else rng.sample(range(9), rng.randint(1, 5))
             yield c
@@ -485,6 +613,26 @@ def cases(rng, tier):
             p, q = rng.sample(range(3), 2)
             c.update(p=p, q=q, k=rng.randint(-9, 9))
         yield c
+    # independence of the unit of length / of the origin / of the unit of the value, as a statement about the real code:
+    # the same field in other units (coordinates s*x + d, values t*v; all exactly representable) through the same history
+    for k in range(30 if tier == "quick" else 200):
+        spec = gen_field_spec(rng, nmin=2, nmax=4, max_cells=40, scaled=False)
+        ops = []
+        for _ in range(rng.choice([1, 2, 2, 3])):
+            r = rng.random()
+            if r < 0.12:
+                ops.append(dict(t="clear"))
+            else:
+                n = [rng.randint(1, 5) for _ in range(3)] if rng.random() < 0.5 else None
+                ops.append(dict(t="rotate", rot=gen_rot(rng), n=n))
+        if all(o["t"] == "clear" for o in ops):
+            ops.append(dict(t="rotate", rot=gen_rot(rng), n=None))
+        # s, d, t chosen so that s*x + d and t*v are exact in binary64 (x: small dyadic corners, v: small dyadic values)
+        sc = rng.choice([2.0 ** rng.randint(-30, 20), 10.0 ** rng.randint(0, 6), float(rng.choice([3, 5, 7, 12])) * 2.0 ** rng.randint(-30, 4)])
+        dd = [float(rng.randint(-50, 50)) * sc * rng.choice([0, 1, 1, 8]) for _ in range(3)]
+        tv = rng.choice([1.0, -1.0, 2.0 ** rng.randint(-20, 30), float(rng.randint(-9, 9) or 4) * 10.0 ** rng.randint(0, 8)])
+        tame_auto_n(spec, ops, None, rng)
+        yield dict(kind="homog", field=spec, ops=ops, s=sc, d=dd, t=tv)
     for k in range(60 if tier == "quick" else 400):
         yield dict(kind="refuse", why=rng.choice(["nvdim", "nvdim", "ndim", "ndim", "nomap", "partial", "baddim", "noninj", "fine"]),
                    sub=rng.getrandbits(30), rot=gen_rot(rng))
@@ -492,7 +640,7 @@ def cases(rng, tier):
 
 # ------------------------------------------------------------------ adapter
 def apply_rot(R, rot, n, rng, method=None):
-    name, args, kw = rot_call(rot["quat"], method or rot["method"], rng)
+    name, args, kw = rot_call(rot["quat"], method or rot["method"], rng, rot.get("pyth"))
     if n is not None:
         R.rotate(name, *args, n=n, **kw)
     else:
@@ -502,6 +650,35 @@ def apply_rot(R, rot, n, rng, method=None):
 
 def field_obs(g):
     return fieldio.field_json(g)
+
+
+def drive(R, ops):
+    """a history without malformed calls: per call ok/err, accumulated rotation, the field after a successful rotate"""
+    steps = []
+    for op in ops:
+        if op["t"] == "clear":
+            R.clear_rotation()
+            steps.append(dict(t="clear", ok=True, rotm=core.private(R, "_rotation").as_matrix().tolist()))
+            continue
+        try:
+            apply_rot(R, op["rot"], op["n"], random.Random(op["rot"]["sub"]))
+            ok = True
+        except Exception:
+            ok = False
+        st = dict(t="rotate", ok=ok, rotm=core.private(R, "_rotation").as_matrix().tolist(), auto=(op["n"] is None))
+        if ok:
+            st["field"] = R.field
+        steps.append(st)
+    return steps
+
+
+def auto_x(f, Macc):
+    """the un-rounded automatic cell counts x_i = E_i / (l_i * (dV / (l_0 l_1 l_2))^(1/3)) of `_calculate_new_n`"""
+    A = np.abs(mfloat(Macc))
+    E = A @ np.asarray(f.mesh.region.edges, float)
+    l = A @ np.asarray(f.mesh.cell, float)
+    adj = (float(np.prod(np.asarray(f.mesh.cell, float))) / float(np.prod(l))) ** (1 / 3)
+    return E / (l * adj)
 
 
 def run_impl(case):
@@ -559,8 +736,8 @@ def run_impl(case):
             model_ops.append(dict(rot=[Qs(r) for r in Mq], n=op["n"]))
             st = dict(t="rotate", ok=ok, rotm=core.private(R, "_rotation").as_matrix().tolist(), auto=(op["n"] is None))
             obs["tags"] += [f"op:rotate-{'ok' if ok else 'err'}", "via:" + op["rot"]["method"].split(":")[0],
-                            "n:" + ("auto" if op["n"] is None else "bad" if op.get("bad") else "explicit"),
-                            "rot:" + ("lattice" if is_lattice(Mq) else "generic")]
+                            "n:" + ("auto" if op["n"] is None else "bad" if op.get("bad") else "tamed" if op.get("tamed") else "explicit"),
+                            "rot:" + ("lattice" if is_lattice(Mq) else "pyth" if op["rot"].get("pyth") else "generic")]
             if op.get("bad") and ok:
                 fail(f"{label}: n={op['n']} accepted")
             if not op.get("bad") and not ok:
@@ -609,6 +786,10 @@ def run_impl(case):
             q = [0, 0, 0, rot["quat"][3] or 1]
             q[a] = rot["quat"][a] or 2
             rot["quat"] = q
+            # (the Pythagorean description belongs to the generated quaternion, not to this one)
+            rot.pop("pyth", None)
+            if rot["method"] == "eulercs":
+                rot["method"] = "matrix"
         Mq = quat_matrix(*rot["quat"])
         # explicit target resolution: many cells along the longest edge of the rotated box, few along the others
         M = mfloat(Mq)
@@ -659,6 +840,8 @@ def run_impl(case):
         apply_rot(R, dict(quat=case["quat"], method=case["method"]), [int(k) for k in ref.mesh.n], random.Random(1))
         g = R.field
         obs["g"] = g
+        obs["ref"] = ref
+        obs["turn_seq"] = [dict(a1=dims[a], a2=dims[b], k=k) for (a, b, k) in seq]
         obs["quarter_len"] = len(seq)
         obs["seq"] = [list(t) for t in seq]
         sc = float(np.abs(f.array).max()) or 1.0
@@ -698,6 +881,30 @@ def run_impl(case):
             sc_ = max(float(np.abs(a_).max()), 1.0)
             if np.abs(M_ @ a_ - b_).max() > 1e-9 * sc_ or np.abs(M_ @ cr_ - cr_).max() > 1e-9 * max(float(np.abs(cr_).max()), 1.0):
                 fail(f"align_vector: initial {a_} is not rotated to final {b_} with the cross product fixed")
+        elif which == "eulercs":
+            seq = [tuple(t) for t in case["seq"]]
+            name = "".join("xyz"[a] for a, _, _ in seq)
+            name = name.upper() if case["intrinsic"] else name
+            R.rotate("from_euler", name, [math.atan2(2 * m * n, m * m - n * n) for _, m, n in seq], n=(1, 1, 1))
+            obs["req"] = dict(op="eulercs", intrinsic=case["intrinsic"], axes=[a for a, _, _ in seq],
+                              cs=[Qs(pyth_cs(m, n)) for _, m, n in seq])
+            obs["tags"].append("euler-len:%d" % len(seq))
+            if not case["intrinsic"]:
+                # the harness' own quaternion product (used for the 'pyth' rotations of the histories) is the same matrix
+                obs["hq"] = [Qs(r) for r in quat_matrix(*pyth_quat(seq))]
+        elif which == "axisangle":
+            u = [Fraction(x, case["den"]) for x in case["u"]]
+            c_, s_ = pyth_cs(case["m"], case["n"])
+            th = math.atan2(float(s_), float(c_))
+            R.rotate("from_rotvec", [th * float(x) for x in u], n=(1, 1, 1))
+            obs["req"] = dict(op="axisangle", u=Qs(u), c=Q(c_), s=Q(s_))
+        elif which == "rcs":
+            c_, s_ = pyth_cs(case["m"], case["n"])
+            G = [[float(int(i == j)) for j in range(3)] for i in range(3)]
+            a, b = case["p"], case["q"]
+            G[a][a], G[a][b], G[b][a], G[b][b] = float(c_), -float(s_), float(s_), float(c_)
+            R.rotate("from_matrix", G, n=(1, 1, 1))
+            obs["req"] = dict(op="rcs", p=a, q=b, c=Q(c_), s=Q(s_))
         elif which == "mrp":
             p = [Fraction(a, b) for a, b in case["p"]]
             R.rotate("from_mrp", [float(x) for x in p], n=(1, 1, 1))
@@ -726,6 +933,82 @@ def run_impl(case):
         if np.abs(M @ M.T - np.eye(3)).max() > 1e-12 or abs(np.linalg.det(M) - 1) > 1e-12:
             fail(f"{which}: accumulated rotation {M.tolist()} is not a proper rotation")
         obs["nontrivial"] = True
+    elif case["kind"] == "homog":
+        f, info = build_field(case["field"])
+        s_, d_, t_ = float(case["s"]), [float(x) for x in case["d"]], float(case["t"])
+        reg = f.mesh.region
+        p1 = [s_ * float(a) + dd for a, dd in zip(reg.pmin, d_)]
+        p2 = [s_ * float(a) + dd for a, dd in zip(reg.pmax, d_)]
+        exact = all(Fraction(v) == Fraction(s_) * Fraction(float(a)) + Fraction(dd)
+                    for v, a, dd in zip(p1 + p2, list(reg.pmin) + list(reg.pmax), d_ + d_))
+        arr2 = np.asarray(f.array, float) * t_
+        exact = exact and bool(np.all(arr2 / t_ == np.asarray(f.array, float)))
+        mesh2 = df.Mesh(region=df.Region(p1=p1, p2=p2, dims=reg.dims, units=reg.units), n=[int(k) for k in f.mesh.n], bc=f.mesh.bc)
+        kw = dict(vdims=f.vdims, vdim_mapping=f.vdim_mapping, valid=np.array(f.valid, copy=True))
+        if f.unit is not None:
+            kw["unit"] = f.unit
+        f2 = df.Field(mesh2, nvdim=f.nvdim, value=arr2, **kw)
+        obs["field"] = fieldio.field_json(f)
+        obs["field2"] = fieldio.field_json(f2)
+        obs["tags"] += [f"nvdim:{f.nvdim}", "data:" + case["field"]["kind"], "homog:" + ("exact" if exact else "rounded"),
+                        "lscale:" + lbucket(s_), "vscale:" + lbucket(abs(t_))]
+        obs["exact"] = exact
+        obs["pos_eps"], obs["pos_eps2"] = field_pos_eps(f), field_pos_eps(f2)
+        obs["vmax"] = float(np.abs(f.array).max())
+        R1, R2 = df.FieldRotator(f), df.FieldRotator(f2)
+        st1, st2 = drive(R1, case["ops"]), drive(R2, case["ops"])
+        acc = EYE
+        nontriv = False
+        for i, (op, a, b) in enumerate(zip(case["ops"], st1, st2)):
+            label = f"op {i}"
+            if a["ok"] != b["ok"]:
+                fail(f"{label}: the field in other units (x -> {s_}*x + {d_}, v -> {t_}*v) is {'rotated' if b['ok'] else 'refused'} "
+                     f"but the original is {'rotated' if a['ok'] else 'refused'}")
+                break
+            if op["t"] == "clear":
+                acc = EYE
+                continue
+            if not a["ok"]:
+                fail(f"{label}: valid rotation {op['rot']} n={op['n']} refused")
+                break
+            acc = mmul(quat_matrix(*op["rot"]["quat"]), acc)
+            g, g2 = a["field"], b["field"]
+            n1, n2 = [int(k) for k in g.mesh.n], [int(k) for k in g2.mesh.n]
+            if n1 != n2:
+                x = auto_x(f, acc)
+                if op["n"] is None and all(n1[k] == n2[k] or abs(x[k] - (min(n1[k], n2[k]) + 0.5)) <= 1e-9 * max(x[k], 1) for k in range(3)):
+                    obs["tags"].append("homog:auto-n-tie")
+                    continue
+                fail(f"{label}: cell counts depend on the unit of length: {n1} vs {n2} after x -> {s_}*x + {d_}")
+                break
+            res = property_oracle(f, info, case["field"], g, acc, op["n"], fail, obs["tags"], label)
+            if res is None:
+                break
+            gt = geom_tol(g2.mesh.region.pmin, g2.mesh.region.pmax)
+            e1 = s_ * np.asarray(g.mesh.region.pmin, float) + np.asarray(d_)
+            e2 = s_ * np.asarray(g.mesh.region.pmax, float) + np.asarray(d_)
+            if max(np.abs(e1 - np.asarray(g2.mesh.region.pmin, float)).max(), np.abs(e2 - np.asarray(g2.mesh.region.pmax, float)).max()) > gt:
+                fail(f"{label}: region of the rotated field in other units [{g2.mesh.region.pmin}, {g2.mesh.region.pmax}] is not "
+                     f"{s_}*[{g.mesh.region.pmin}, {g.mesh.region.pmax}] + {d_}")
+                break
+            peps = max(obs["pos_eps"], obs["pos_eps2"])
+            away = np.abs(res["near"]) > 1e-6 + 4 * peps
+            v1 = np.asarray(g.array, float).reshape(-1, f.nvdim)[away] * t_
+            v2 = np.asarray(g2.array, float).reshape(-1, f.nvdim)[away]
+            if v1.size and np.abs(v1 - v2).max() > (1e-9 + 8 * peps) * res["vscale"] * abs(t_):
+                k = int(np.argmax(np.abs(v1 - v2).max(axis=1)))
+                fail(f"{label}: values depend on the units: {t_} * {v1[k] / t_} expected, the field in other units "
+                     f"(x -> {s_}*x + {d_}) gives {v2[k]}")
+                break
+            if list(g2.vdims or []) != list(g.vdims or []) or g2.nvdim != g.nvdim:
+                fail(f"{label}: component labels depend on the units")
+                break
+            if res["deep"] and not is_lattice(acc):
+                nontriv = True
+        obs["steps"], obs["steps2"] = st1, st2
+        obs["model_ops"] = [({} if op["t"] == "clear" else dict(rot=[Qs(r) for r in quat_matrix(*op["rot"]["quat"])], n=op["n"]))
+                            for op in case["ops"]]
+        obs["nontrivial"] = nontriv
     elif case["kind"] == "interp":
         f, info = build_field(case["field"])
         obs["field"] = fieldio.field_json(f)
@@ -888,7 +1171,13 @@ def model_requests(case, obs):
     if case["kind"] == "quarter":
         Mq = quat_matrix(*case["quat"])
         return [dict(op="history", field=obs["field"], ops=[dict(rot=[Qs(r) for r in Mq], n=[int(k) for k in obs["g"].mesh.n])]),
-                dict(op="quat", q=Qs(case["quat"]))] + [dict(op="rq", p=a, q=b, k=k) for (a, b, k) in obs["seq"]]
+                dict(op="quat", q=Qs(case["quat"])), dict(op="turns", field=obs["field"], seq=obs["turn_seq"])] \
+            + [dict(op="rq", p=a, q=b, k=k) for (a, b, k) in obs["seq"]]
+    if case["kind"] == "homog":
+        return [dict(op="history", field=obs["field"], ops=obs["model_ops"]),
+                dict(op="aff_history", field=obs["field"], s=Q(float(case["s"])), d=Qs([float(x) for x in case["d"]]),
+                     t=Q(float(case["t"])), ops=obs["model_ops"]),
+                dict(op="history", field=obs["field2"], ops=obs["model_ops"])]
     if case["kind"] == "param":
         return [obs["req"]]
     if case["kind"] == "interp":
@@ -963,27 +1252,45 @@ def cmp_rotated(name, g, st, dis, auto, peps=0.0, vmax=0.0):
     return "ok"
 
 
+def cmp_steps(isteps, r, dis, peps, vmax, prefix=""):
+    if "ok" not in r:
+        dis.append(f"{prefix}FieldRotator(): impl ok vs model {r}")
+        return
+    msteps = r["ok"]
+    if len(msteps) != len(isteps):
+        raise core.MachineryError("step count mismatch")
+    for i, (a, b) in enumerate(zip(isteps, msteps)):
+        name = f"{prefix}op {i} ({a['t']})"
+        if a["ok"] != (b["err"] is None):
+            dis.append(f"{name}: impl {'ok' if a['ok'] else 'err'} vs model {b['err'] or 'ok'}")
+            break
+        if not cmp_rot(name, a["rotm"], b["rot"], dis):
+            break
+        if a["t"] == "rotate" and a["ok"]:
+            cmp_rotated(name, a["field"], b, dis, a["auto"], peps, vmax)
+
+
 def compare(case, obs, rs):
     dis = []
     if not rs:
         return dis
     if case["kind"] == "hist":
-        r = rs[0]
-        if "ok" not in r:
-            return [f"FieldRotator(): impl ok vs model {r}"]
-        msteps = r["ok"]
-        isteps = obs["steps"]
-        if len(msteps) != len(isteps):
-            raise core.MachineryError("step count mismatch")
-        for i, (a, b) in enumerate(zip(isteps, msteps)):
-            name = f"op {i} ({a['t']})"
-            if a["ok"] != (b["err"] is None):
-                dis.append(f"{name}: impl {'ok' if a['ok'] else 'err'} vs model {b['err'] or 'ok'}")
-                break
-            if not cmp_rot(name, a["rotm"], b["rot"], dis):
-                break
-            if a["t"] == "rotate" and a["ok"]:
-                cmp_rotated(name, a["field"], b, dis, a["auto"], obs.get("pos_eps", 0.0), obs.get("vmax", 0.0))
+        cmp_steps(obs["steps"], rs[0], dis, obs.get("pos_eps", 0.0), obs.get("vmax", 0.0))
+        return dis
+    if case["kind"] == "homog":
+        cmp_steps(obs["steps"], rs[0], dis, obs.get("pos_eps", 0.0), obs.get("vmax", 0.0))
+        # the model's own change of units (affFld: the object of the theorems rot_homogeneous / history_homogeneous)
+        # against the real code run on the field in the other units
+        cmp_steps(obs["steps2"], rs[1], dis, obs.get("pos_eps2", 0.0), obs.get("vmax", 0.0) * abs(float(case["t"])),
+                  prefix="field in other units (model affFld): ")
+        if obs.get("exact") and "ok" in rs[1] and "ok" in rs[2]:
+            # exact regime: affFld of the original IS the field the real code was given - the two model runs coincide
+            for i, (a, b) in enumerate(zip(rs[1]["ok"], rs[2]["ok"])):
+                fa, fb = a.get("field") or {}, b.get("field") or {}
+                # (the order of the mapping's keys is not compared: aged objects carry the same mapping in another order)
+                if a.get("err") != b.get("err") or a.get("rot") != b.get("rot") or any(fa.get(k) != fb.get(k) for k in ("mesh", "data", "nvdim", "vdims")):
+                    dis.append(f"op {i}: model history of affFld(f) differs from the model history of the field built in the other units")
+                    break
         return dis
     if case["kind"] == "quarter":
         r = rs[0]
@@ -994,8 +1301,30 @@ def compare(case, obs, rs):
             dis.append(f"harness matrix of quaternion {case['quat']} differs from the model's ofQuat {rs[1]}")
         # the model's quarter-turn matrices Rq (the ones the theorems speak about), multiplied in call order,
         # are the lattice rotation that was compared with Field.rotate90 on the real code
+        # the model of the SEQUENCE of Field.rotate90 calls (turns / turnsM: the objects of the theorem
+        # rotate90_sequence_is_one_rotation) against the real sequence of Field.rotate90 calls
+        rt = rs[2]
+        if "ok" not in rt:
+            dis.append(f"sequence {obs['turn_seq']} of Field.rotate90 calls: impl ok vs model {str(rt)[:200]}")
+        else:
+            ref, mj = obs["ref"], rt["ok"]
+            if [[F(x) for x in row] for row in rt["prod"]] != quat_matrix(*case["quat"]):
+                dis.append(f"ordered product of the model's quarter-turn matrices of {obs['turn_seq']} differs from the lattice rotation {case['quat']}")
+            if [int(k) for k in ref.mesh.n] != mj["mesh"]["n"]:
+                dis.append(f"sequence {obs['turn_seq']}: n impl {[int(k) for k in ref.mesh.n]} vs model {mj['mesh']['n']}")
+            else:
+                gt = geom_tol(np.asarray(ref.mesh.region.pmin, float), np.asarray(ref.mesh.region.pmax, float))
+                for key, val in (("pmin", ref.mesh.region.pmin), ("pmax", ref.mesh.region.pmax)):
+                    if any(abs(Fraction(float(x)) - F(y)) > gt for x, y in zip(val, mj["mesh"]["region"][key])):
+                        dis.append(f"sequence {obs['turn_seq']}: region {key} impl {list(val)} vs model {[float(F(y)) for y in mj['mesh']['region'][key]]}")
+                mv = np.array([[float(F(x)) for x in row] for row in mj["data"]])
+                iv = np.asarray(ref.array, float).reshape(-1, ref.nvdim)
+                if mv.shape != iv.shape or np.abs(mv - iv).max() > 1e-12 * max(float(obs.get("vmax", 0.0)), 1e-300):
+                    dis.append(f"sequence {obs['turn_seq']} of Field.rotate90 calls: values differ from the model's turns")
+                if list(ref.mesh.region.dims) != mj["mesh"]["region"]["dims"]:
+                    dis.append(f"sequence {obs['turn_seq']}: axis names impl {list(ref.mesh.region.dims)} vs model {mj['mesh']['region']['dims']}")
         P = EYE
-        for r in rs[2:]:
+        for r in rs[3:]:
             if not r.get("is_rot"):
                 dis.append(f"model Rq is not a rotation: {r}")
             P = mmul([[F(x) for x in row] for row in r["ok"]], P)
@@ -1012,7 +1341,9 @@ def compare(case, obs, rs):
             if sorted(case["l"]) == [0, 1, 2] and r["inv"] != obs["argsort"]:
                 dis.append(f"argsort of the permutation {case['l']}: numpy {obs['argsort']} vs the model's invAt {r['inv']}")
             return dis
-        if case["which"] in ("mrp", "align") and not r.get("is_rot"):
+        if case["which"] == "eulercs" and obs.get("hq") is not None and r["ok"] != obs["hq"]:
+            dis.append(f"eulercs {obs['req']}: the harness' quaternion product {obs['hq']} differs from the model's eulerCS {r['ok']}")
+        if case["which"] in ("mrp", "align", "eulercs", "axisangle", "rcs") and not r.get("is_rot"):
             dis.append(f"model matrix for {case['which']} {obs['req']} is not a rotation")
         cmp_rot(f"{case['which']} {obs['req']}", obs["rotm"], r["ok"], dis)
         return dis
